@@ -8,7 +8,7 @@ package control
 import "github.com/cilium/ebpf"
 
 func c10TryRealMap(unit string) *ebpf.Map { return nil }
-func c10ForceBatchMode(simulate bool)      {}
+func c10ForceBatchMode(simulate bool)     {}
 func c10DumpReal(m *ebpf.Map) (map[c10Key]bpfDomainRouting, error) {
 	return nil, nil
 }
